@@ -559,10 +559,10 @@ pub fn render_block_scalar(
     let explicit = want_explicit || needs_explicit;
     let mut digit = 0usize;
     if explicit {
-        if parent_indent < 0 {
-            return None; // the meaning of an indicator at top level is contested: not generated
-        }
-        let d = content_indent as isize - parent_indent;
+        // At the top level there is no parent indentation: the property statement ("the content
+        // indentation is the explicit indicator") is read as libyaml / PyYAML read it, i.e. the
+        // indicator counts from column 0.
+        let d = content_indent as isize - parent_indent.max(0);
         if !(1..=9).contains(&d) {
             return None;
         }
